@@ -1,4 +1,4 @@
-import TrippyVerif.Lemmas.Strategy
+import TrippyVerif.Lemmas.StrategyHist
 /-!
 # C06 — probe scheduling discipline: TTL order, limits and in-flight window
 
@@ -124,6 +124,80 @@ theorem target_found_iff {c : Cfg} (hc : CfgOk c) {s : TS} (hs : Reach c s) (dt 
   | none => simp [hg] at h; subst h; simp [tick]
   | some p => simp [hg] at h; subst h; simp [afterComplete, tick]
 
+/-! ### the whole TTL trace of a round -/
+
+/-- reachable states together with the log of `send_probe` calls of the round in progress -/
+inductive ReachLog (c : Cfg) : TS → List (Probe × SendOutcome) → Prop
+  | init (t0 : Nat) : ReachLog c (init c t0) []
+  | step {s s' : TS} {log : List (Probe × SendOutcome)} (e : IterEnv) (o : IterOut) :
+      ReachLog c s log → iter c s e = .ok (s', o) →
+      ReachLog c s' (if o.published.isSome then [] else log ++ o.sent)
+
+theorem ReachLog.reach {c : Cfg} {s : TS} {log} (h : ReachLog c s log) : Reach c s := by
+  induction h with
+  | init t0 => exact .init t0
+  | step e o _ hit ih => exact .step e o ih hit
+
+/-- one iteration extends a well-formed TTL trace by exactly one fresh TTL (or by nothing) -/
+theorem trace_step {c : Cfg} (hc : CfgOk c) {s s' : TS} (hs : Reach c s) {e : IterEnv} {o : IterOut}
+    (h : iter c s e = .ok (s', o)) (log : List (Probe × SendOutcome))
+    (hl : ttlsFrom c.firstTtl log = some s.ttl) :
+    ttlsFrom c.firstTtl (log ++ o.sent) = some (if o.sent = [] then s.ttl else s.ttl + 1) := by
+  obtain ⟨s1, s2, h1, _, _⟩ := iter_decomp h
+  have hi := reach_inv hc hs
+  obtain ⟨_, _, hcons⟩ := (sendRequest_spec hc hi e.sends).2 s1 o.sent h1
+  rw [ttlsFrom_append, hl]
+  by_cases hn : o.sent = []
+  · simp [hn, ttlsFrom]
+  · obtain ⟨_, hso⟩ := hcons hn
+    simp only [Option.bind_some, hn, if_false]
+    exact ttlsFrom_iteration s.ttl o.sent (sendRequest_shape c s e.sends s1 o.sent h1 hn)
+      (fun x hx => (hso.each x hx).1)
+
+/-- **TTL order of a whole round.**  In every reachable state the `send_probe` calls of the round in
+progress carry the TTLs first-ttl, first-ttl+1, … in order, without gaps or repeats, except that
+the call following an address-in-use outcome repeats the TTL (the re-issued probe); and the next
+TTL to be used is the state's. -/
+theorem round_ttl_trace {c : Cfg} (hc : CfgOk c) {s : TS} {log : List (Probe × SendOutcome)}
+    (h : ReachLog c s log) : ttlsFrom c.firstTtl log = some s.ttl := by
+  induction h with
+  | init t0 => simp [ttlsFrom, init]
+  | @step s s' log e o hr hit ih =>
+    have hstep := trace_step hc hr.reach hit log ih
+    obtain ⟨hp1, hp2⟩ := ttl_progression hc hr.reach hit
+    cases hpub : o.published with
+    | none =>
+      simp only [Option.isSome_none, Bool.false_eq_true, if_false]
+      rw [hstep, (hp1 hpub).2]
+    | some r =>
+      simp only [Option.isSome_some, if_true]
+      rw [(hp2 (by simp [hpub])).2]; rfl
+
+/-- the complete log of every published round is such a trace, and it holds exactly one entry per
+entry of the published round -/
+theorem published_round_ttl_trace {c : Cfg} (hc : CfgOk c) {s s' : TS} {log : List (Probe × SendOutcome)}
+    (hr : ReachLog c s log) {e : IterEnv} {o : IterOut} (hit : iter c s e = .ok (s', o)) :
+    ∃ t, ttlsFrom c.firstTtl (log ++ o.sent) = some t ∧ t ≤ 255 := by
+  have hstep := trace_step hc hr.reach hit log (round_ttl_trace hc hr)
+  refine ⟨_, hstep, ?_⟩
+  have hi := reach_inv hc hr.reach
+  obtain ⟨s1, s2, h1, _, _⟩ := iter_decomp hit
+  obtain ⟨_, hnil, hcons⟩ := (sendRequest_spec hc hi e.sends).2 s1 o.sent h1
+  by_cases hn : o.sent = []
+  · simp only [hn, if_true]; have := hi.ttl_le; omega
+  · simp only [hn, if_false]
+    have hcs := (hcons hn).1
+    simp only [canSend, Bool.and_eq_true, Bool.not_eq_true', decide_eq_true_eq] at hcs
+    have := hc.max_le
+    omega
+
+/-- what the trace predicate means, spelled out on an example: TTLs 1, 2, 2 (re-issue), 3 -/
+example : ttlsFrom 1 [(⟨0, 0, 0, 0, 1, 0, 0, 0⟩, .ok), (⟨1, 0, 0, 0, 2, 0, 0, 0⟩, .addrInUse), (⟨2, 0, 0, 0, 2, 0, 0, 0⟩, .ok),
+    (⟨3, 0, 0, 0, 3, 0, 0, 0⟩, .probeFailed)] = some 4 := by decide
+/-- a gap and a repeat are both rejected -/
+example : ttlsFrom 1 [(⟨0, 0, 0, 0, 1, 0, 0, 0⟩, .ok), (⟨1, 0, 0, 0, 3, 0, 0, 0⟩, .ok)] = none := by decide
+example : ttlsFrom 1 [(⟨0, 0, 0, 0, 1, 0, 0, 0⟩, .ok), (⟨1, 0, 0, 0, 1, 0, 0, 0⟩, .ok)] = none := by decide
+
 end TV.Props.C06
 
 #print axioms TV.Props.C06.send_discipline
@@ -132,3 +206,5 @@ end TV.Props.C06
 #print axioms TV.Props.C06.roundStart_after_publish
 #print axioms TV.Props.C06.first_probe_sent
 #print axioms TV.Props.C06.target_found_iff
+#print axioms TV.Props.C06.round_ttl_trace
+#print axioms TV.Props.C06.published_round_ttl_trace
